@@ -170,7 +170,7 @@ TEXT_EXTRA = (
 
 
 def in_family(entry, e):
-    if entry in ("msg_wire", "name_wire", "rdata_wire"):
+    if entry in ("msg_wire", "msg_multi", "name_wire", "rdata_wire"):
         return isinstance(e, dns.exception.FormError) or isinstance(e, WIRE_EXTRA)
     if entry in ("name_text",):
         return isinstance(e, (dns.exception.SyntaxError,) + TEXT_EXTRA)
@@ -288,6 +288,69 @@ def _p_msg_wire(p):
     return ("message", m, kw)
 
 
+def build_multi_envelope(alg, form, have_ctx, mac_mode, err, dt, other_len, now=None):
+    """One envelope of a multi-message (zone transfer) exchange signed under the probe key, built
+    from a small recipe so that the MAC is computed for the current time.  alg: algorithm name the
+    TSIG record carries; form: keyring holds a Key (0) or the bare secret (1); have_ctx: a running
+    context from a previous envelope is supplied; mac_mode: 0 the MAC a holder of the key would
+    compute, 1 zeros, 2 truncated to 10 octets, 3 empty; err / other_len: error field, other data;
+    dt: clock skew in seconds.  -> (wire, keyring, ctx)"""
+    import base64
+    import struct
+    import time as _time
+
+    keyname = dns.name.from_text("keyname.")
+    secret = base64.b64decode("NjHwPsMKjdN++dOfE5iAiQ==")
+    key = dns.tsig.Key(keyname, secret, "hmac-sha256")
+    prev_mac = bytes(range(32))
+
+    def running():
+        c = dns.tsig.get_context(key)
+        c.update(struct.pack("!H", len(prev_mac)) + prev_mac)
+        return c
+
+    algname = dns.name.from_text(alg.decode() if isinstance(alg, (bytes, bytearray)) else alg)
+    now = int(_time.time() if now is None else now) + dt
+    body = struct.pack("!HHHHHH", 0x1234, 0x8400, 0, 0, 0, 0)
+    te = struct.pack("!HIH", (now >> 32) & 0xFFFF, now & 0xFFFFFFFF, 300)
+    other = bytes(other_len)
+    mac = bytes(32)
+    if mac_mode == 0:
+        try:
+            if have_ctx:
+                c = running()
+                c.update(struct.pack("!H", 0x1234))
+                c.update(body[2:])
+                c.update(te)
+            else:
+                c = dns.tsig.get_context(dns.tsig.Key(keyname, secret, algname))
+                c.update(struct.pack("!H", 0x1234))
+                c.update(body[2:])
+                c.update(keyname.to_digestable())
+                c.update(struct.pack("!H", 255))
+                c.update(struct.pack("!I", 0))
+                c.update(algname.to_digestable() + te)
+                c.update(struct.pack("!HH", err, other_len) + other)
+            mac = c.sign()
+        except Exception:  # noqa - an algorithm the probe itself cannot sign with (unimplemented, GSS)
+            mac = bytes(32)
+    elif mac_mode == 2:
+        mac = bytes(10)
+    elif mac_mode == 3:
+        mac = b""
+    rd = algname.to_wire() + te + struct.pack("!H", len(mac)) + mac + struct.pack("!HHH", 0x1234, err, other_len) + other
+    wire = body[:10] + struct.pack("!H", 1) + keyname.to_wire() + struct.pack("!HHIH", 250, 255, 0, len(rd)) + rd
+    ring = {keyname: key} if form == 0 else {keyname: secret}
+    return wire, ring, (running() if have_ctx else None)
+
+
+def _p_msg_multi(p):
+    alg, form, have_ctx, mac_mode, err, dt, other_len = p
+    wire, ring, ctx = build_multi_envelope(alg, form, have_ctx, mac_mode, err, dt, other_len)
+    m = dns.message.from_wire(wire, keyring=ring, tsig_ctx=ctx, multi=True)
+    return ("message", m, {"multi": True})
+
+
 def _p_name_wire(p):
     wire, off = p
     n, c = dns.name.from_wire(wire, off)
@@ -364,6 +427,7 @@ def _p_ttl_text(p):
 
 ENTRIES = {
     "msg_wire": _p_msg_wire,
+    "msg_multi": _p_msg_multi,
     "name_wire": _p_name_wire,
     "rdata_wire": _p_rdata_wire,
     "edns_wire": _p_edns_wire,
@@ -1277,6 +1341,15 @@ def sweep_probes(s, what):
             yield "rdata_wire", [rdclass, rdtype, w, 0, len(w) + 1, 0]
             yield "rdata_wire", [rdclass, rdtype, b"\x03www\x00" + w, 5, len(w), 2]
     elif what == "msg":
+        # signed envelopes of a multi-message exchange (from_wire(multi=True, tsig_ctx=...)): every
+        # algorithm name x keyring form x first/later envelope x MAC quality x error field x skew
+        for alg in (b"hmac-sha256.", b"hmac-sha512.", b"hmac-sha256-128.", b"hmac-md5.sig-alg.reg.int.", b"gss-tsig.", b"foo.", b"."):
+            for form in (0, 1):
+                for have_ctx in (0, 1):
+                    for mac_mode in (0, 1, 2, 3):
+                        for err in (0, 16, 22, 4095):
+                            for dt, other_len in ((0, 0), (0, 6), (400, 0), (-400, 6)):
+                                yield "msg_multi", [alg, form, have_ctx, mac_mode, err, dt, other_len]
         q = b"\x03www\x07example\x00" + struct.pack("!HH", 255, 1)
         for rdclass, rdtype, _, w in s.rdatas:
             if rdtype == 41:
